@@ -56,7 +56,7 @@ def type_and_defaults(draw, depth=0, allow_union_str=False, argparse_only=False)
         return n, scalar_defaults(n)
     if k == "dotted":
         n = draw(st.sampled_from(DOTTED))
-        return n, st.sampled_from(CODE_SIMPLE).map(code)
+        return n, None  # only a code expression is admissible: knob `code_default`
     if k == "Literal":
         if draw(st.booleans()):
             vals = draw(st.lists(st.sampled_from(STR_WORDS), min_size=1, max_size=3, unique=True))
@@ -67,19 +67,19 @@ def type_and_defaults(draw, depth=0, allow_union_str=False, argparse_only=False)
         inner, dflt = draw(type_and_defaults(depth=depth + 1, allow_union_str=allow_union_str, argparse_only=argparse_only))
         if inner.startswith("Optional["):
             return inner, dflt
-        return "Optional[%s]" % inner, st.one_of(st.none(), dflt)
+        return "Optional[%s]" % inner, st.none() if dflt is None else st.one_of(st.none(), dflt)
     if k == "List":
         inner, _ = draw(type_and_defaults(depth=depth + 1, allow_union_str=allow_union_str, argparse_only=argparse_only))
-        return "List[%s]" % inner, st.sampled_from(("[]",)).map(code)
+        return "List[%s]" % inner, None
     if k == "Tuple":
         n = draw(st.integers(1, 3))
         inners = [draw(type_and_defaults(depth=depth + 1, allow_union_str=allow_union_str))[0] for _ in range(n)]
-        return norm_type("Tuple[%s]" % ", ".join(inners)), st.sampled_from(("(1, 2)",)).map(code)
+        return norm_type("Tuple[%s]" % ", ".join(inners)), None
     # Union of two distinct members; `str` only as a member when allowed (emit-side quote() defect shape)
     pool = [s for s in SCALARS if s != "str" or allow_union_str] + list(DOTTED[:3])
     members = draw(st.lists(st.sampled_from(pool), min_size=2, max_size=3, unique=True))
-    dflts = [scalar_defaults(m) if m in SCALARS else st.sampled_from(CODE_SIMPLE).map(code) for m in members]
-    return "Union[%s]" % ", ".join(members), st.one_of(*dflts)
+    dflts = [scalar_defaults(m) for m in members if m in SCALARS]
+    return "Union[%s]" % ", ".join(members), st.one_of(*dflts) if dflts else None
 
 
 def code(expr):
@@ -176,7 +176,12 @@ def m_default_without_prose(draw, ir):
     p = _ensure_param(draw, ir)
     p.pop("doc", None)
     if "default" not in p:
+        if p.get("_dflts") is None or "typ" not in p:
+            p["typ"], p["_dflts"] = "int", scalar_defaults("int")
         p["default"] = draw(p["_dflts"])
+        if p["default"] is None:
+            p["default"] = 3
+            p["typ"] = "Optional[int]"
 
 
 def m_bare_param(draw, ir):
@@ -245,7 +250,9 @@ def m_nodefault_after_default(draw, ir):
     i = draw(st.integers(0, len(plain) - 2))
     first, later = plain[i], plain[draw(st.integers(i + 1, len(plain) - 1))]
     if "default" not in first:
-        first["default"] = draw(first["_dflts"]) if "_dflts" in first and "typ" in first else 1
+        if first.get("_dflts") is None or "typ" not in first:
+            first["typ"], first["_dflts"] = "int", scalar_defaults("int")
+        first["default"] = draw(first["_dflts"])
     later.pop("default", None)
     # `later` must be a shape without an implicit default: not Optional
     if (later.get("typ") or "").startswith("Optional["):
@@ -389,7 +396,7 @@ def ir_strategy(draw, allowed=(), forced=None, max_params=5, min_params=0, argpa
     for name in names:
         p = draw(base_param(name, argparse_only=argparse_only))
         # base shape: once a parameter has a default every later one has one too (the gap is a knob)
-        if seen_default or draw(st.floats(0, 1)) < p_default:
+        if p["_dflts"] is not None and (seen_default or draw(st.floats(0, 1)) < p_default):
             d = draw(p["_dflts"])
             if d is None and not p["typ"].startswith("Optional["):
                 d = draw(scalar_defaults("int"))
@@ -519,6 +526,8 @@ def param_tags(p, prev_has_default=False):
             names = type_names(typ)
             if "str" in names and not isinstance(d, str) and d is not None:
                 t.add("nonstr_default_under_str_type")
+            if d is not None and not is_code(d) and typ != type(d).__name__:
+                t.add("default_type_ne_typ")
     else:
         if prev_has_default and not kw:
             t.add("nodefault_after_default")
